@@ -739,8 +739,14 @@ impl<R: std::io::Read + std::io::Seek, E: crate::byteorder::Endianness> std::io:
                 // current position in bytes is current position in samples
                 // converted to bytes *minus* the un-consumed space in the buffer
                 // since the sample position is running ahead of the byte position
-                let original_pos: u64 =
-                    (decoder.current_sample * bytes_per_pcm_frame) - (buf.len() as u64);
+                let original_pos: u64 = decoder
+                    .current_sample
+                    .checked_mul(bytes_per_pcm_frame)
+                    .and_then(|pos| pos.checked_sub(buf.len() as u64))
+                    .ok_or(std::io::Error::new(
+                        std::io::ErrorKind::InvalidInput,
+                        "stream position too large",
+                    ))?;
 
                 match pos.cmp(&0) {
                     Ordering::Less => {
@@ -1469,7 +1475,11 @@ impl<R: std::io::Read> Decoder<R> {
             return Err(Error::Crc16Mismatch);
         }
 
-        self.current_sample += u64::from(u16::from(header.block_size));
+        // (a seek point may have claimed a position at the very end of the range)
+        self.current_sample = self
+            .current_sample
+            .checked_add(u64::from(u16::from(header.block_size)))
+            .ok_or(Error::TooManySamples)?;
 
         Ok(Some(&self.buf))
     }
